@@ -270,7 +270,7 @@ func (cs *ContractSet) finish() error {
 		}
 		for _, cl := range c.Clauses {
 			switch cl.Kind {
-			case "requires", "ensures", "loop-invariant", "loop-decreases", "decreases", "assert", "assume", "canary", "invariant":
+			case "requires", "ensures", "loop-invariant", "loop-decreases", "decreases", "assert", "assume", "canary", "invariant", "cover":
 				e, err := parseExpr(cl.Text)
 				if err != nil {
 					return fmt.Errorf("%s:%d: %v in %q", cl.File, cl.Line, err, cl.Text)
